@@ -31,7 +31,7 @@ pub uninterp spec fn lines(s: Txt) -> Seq<Txt>;                 // str::split_in
 pub uninterp spec fn strip_nl(l: Txt) -> Option<Txt>;           // str::strip_suffix('\n')
 pub uninterp spec fn trimmed(l: Txt) -> Txt;                    // str::trim
 pub uninterp spec fn canon(p: u64) -> Option<u64>;              // Path::canonicalize (None = error)
-pub uninterp spec fn parent(p: u64) -> u64;                     // Path::parent().unwrap_or(Path::new("."))
+pub uninterp spec fn parent_of(p: u64) -> u64;                     // Path::parent().unwrap_or(Path::new("."))
 pub uninterp spec fn pjoin(dir: u64, raw: Txt) -> u64;          // Path::join
 pub uninterp spec fn readf(p: u64) -> Option<Txt>;              // File::open + read_to_string (None = error)
 // ---- the line classifiers of mechfs.rs, named --------------------------------------------------------------------------
@@ -55,7 +55,7 @@ pub fn trim<'a>(l: &'a Str) -> (r: &'a Str) ensures r.v@ == trimmed(l.v@), { uni
 #[verifier::external_body]
 pub fn canonicalize(p: &u64) -> (r: Option<u64>) ensures r == canon(*p), { unimplemented!() }
 #[verifier::external_body]
-pub fn parent_or_dot(p: &u64) -> (r: u64) ensures r == parent(*p), { unimplemented!() }
+pub fn parent_or_dot(p: &u64) -> (r: u64) ensures r == parent_of(*p), { unimplemented!() }
 #[verifier::external_body]
 pub fn path_join(dir: u64, raw: &Str) -> (r: u64) ensures r == pjoin(dir, raw.v@), { unimplemented!() }
 #[verifier::external_body]
@@ -105,7 +105,7 @@ pub open spec fn tokline(l: Txt, cp: u64, active: Set<u64>) -> Option<Txt> {
   let (lw, newline) = match strip_nl(l) { Some(p) => (p, nl()), None => (l, Seq::<u8>::empty()) };
   match sbc(lw) {
     Some(inner) => if looks(inner) {
-        match canon(pjoin(parent(cp), trimmed(inner))) {
+        match canon(pjoin(parent_of(cp), trimmed(inner))) {
           None => None,                                        // a missing file is an error
           Some(ic) => cat(rec(ic, active), Some(newline)),
         }
